@@ -2,6 +2,7 @@
   C02 — Index sets stay downward-closed; candidates are exactly the admissible margin.
 -/
 import AmiscProofs.IndexExtra
+import AmiscModel.IndexGen
 
 namespace Amisc.C02
 
@@ -103,5 +104,51 @@ example : (run [1, 1] [[0, 0], [1, 0], [0, 1], [1, 1]]).cand = [] ∧
     (run [1, 1] [[0, 0], [1, 0], [0, 1], [1, 1]]).active ≠ [] := by decide
 example : (run [1, 2] [[0, 0], [1, 1], [1, 0]]).cand ≠ [] := by decide
 example : activate [1, 2] (run [1, 2] [[0, 0]]) [1, 1] = run [1, 2] [[0, 0]] := by decide
+
+/-! ### the bookkeeping as generated from `Component.activate_index` / `Component._neighbors` -/
+
+theorem generated_backOK_is_model (active : List Idx) (self c : Idx) : backOKGen active self c = backOK active self c := by
+  unfold backOKGen backOK Gen.backDims Gen.backFails
+  congr 1
+  funext j
+  cases (c.nth j == 0) <;> cases (decide (c.dec j ∈ active)) <;> cases (decide (c.dec j = self)) <;> rfl
+
+theorem generated_nbrs_is_model (box : Idx) (active : List Idx) (idx : Idx) : nbrsGen box active idx = nbrs box active idx := by
+  unfold nbrsGen nbrs
+  congr 1
+  funext k
+  simp only [generated_backOK_is_model, Gen.nbrSkip, Bool.or_false, Bool.not_not]
+
+/-- **the activation the driver runs — request guards, neighbour rule and the commit block read statement by statement from
+    the source — is the reference `activate`** about which the invariants (C02), the weight theorems (C01), the crash
+    theorems (C13) and the replay theorems (C18) are stated -/
+theorem generated_activate_is_model (box : Idx) (st : IState) (idx : Idx) : activateGen box st idx = activate box st idx := by
+  unfold activateGen activate Gen.guardActive Gen.guardNonCandidate
+  by_cases h1 : idx ∈ st.active
+  · simp [h1]
+  · by_cases h2 : idx ∈ st.cand
+    · simp [h1, h2, Gen.commitOps, applyCommit, generated_nbrs_is_model]
+    · by_cases h3 : idx.total > 0
+      · simp [h1, h2, h3]
+      · simp [h1, h2, h3, Gen.commitOps, applyCommit, generated_nbrs_is_model]
+
+theorem generated_run_is_model (box : Idx) (rs : List Idx) : runGen box rs = run box rs := by
+  unfold runGen run
+  congr 1
+  funext st idx
+  exact generated_activate_is_model box st idx
+
+/-- hence every reachable state of the generated bookkeeping satisfies the invariants -/
+theorem generated_inv_reachable (box : Idx) (rs : List Idx) (h : WT box rs) :
+    let st := runGen box rs
+    st.active.Nodup ∧ st.cand.Nodup ∧ (∀ i ∈ st.active, i ∉ st.cand) ∧
+    isDownwardClosed st.active = true ∧ isDC st.active = true ∧
+    (∀ i ∈ st.active ++ st.cand, Idx.le i box = true) ∧
+    (st.active = [] → st.cand = []) ∧
+    (st.active ≠ [] → ∀ i, i ∈ st.cand ↔ inMargin box st.active i = true) := by
+  rw [generated_run_is_model]
+  exact inv_reachable box rs h
+
+example : runGen [1, 2] [[0, 0], [0, 1], [1, 0], [1, 1]] = run [1, 2] [[0, 0], [0, 1], [1, 0], [1, 1]] := by decide +kernel
 
 end Amisc.C02
